@@ -98,6 +98,8 @@ pub fn search(pid: &str, seed: u64, budget_s: u64, out: &str) {
     match pid {
         "C16" => c16(&mut s),
         "C17" => c17(&mut s, &mut rng),
+        "C14" => c14(&mut s, &mut rng),
+        "C15" => c15(&mut s, &mut rng),
         _ => {}
     }
     s.finish();
@@ -130,5 +132,46 @@ fn c17(s: &mut Search, rng: &mut Rng) {
             s.class("arbitrary");
             s.run("Parser.total", &req, "c17_panic", "parser panicked", false);
         }
+    }
+}
+
+fn c14(s: &mut Search, rng: &mut Rng) {
+    let mut n = 0u64;
+    while s.time_left() && n < 300_000 {
+        n += 1;
+        let c = gen::gen_cell(rng);
+        let a = gen::gen_angle(rng);
+        let (sn, co) = a.sin_cos();
+        let m = [co, -sn, gen::gen_site_coord(rng), sn, co, gen::gen_site_coord(rng), 0.0, 0.0, if rng.chance(1, 2) { 0.0 } else { 1.0 }];
+        let shells = rng.below(7) as i64 - 1;
+        let req = format!(
+            "oracle c14_lattice {} {} {} {} {} {}",
+            gen::cell_str(c),
+            fhex(gen::gen_wrap_coord(rng)),
+            fhex(gen::gen_wrap_coord(rng)),
+            gen::mat9(m),
+            shells,
+            rng.below(2)
+        );
+        s.class(c.3);
+        s.run("Lattice.views-agree", &req, "c14_lattice", "Cartesian map / periodic images / area disagree", shells >= 1);
+    }
+}
+
+fn c15(s: &mut Search, rng: &mut Rng) {
+    let mut n = 0u64;
+    while s.time_left() && n < 300_000 {
+        n += 1;
+        let site = gen::gen_site(rng);
+        let req = format!(
+            "oracle c15_site {} {} {} {}",
+            gen::site_str(&site),
+            rng.below(7) as i64 - 3,
+            rng.below(7) as i64 - 3,
+            rng.below(5) as i64 - 2
+        );
+        let edge = site.1.abs() == 0.5 || site.2.abs() == 0.5;
+        s.class(if edge { "on-bound" } else { "interior" });
+        s.run("Site.copies", &req, "c15_site", "site placements are not the group's copies in the canonical cell", site.0.len() >= 2);
     }
 }
